@@ -6,8 +6,8 @@
 
 #define MAXTOK 12
 #define MAXCL 4
-enum { O_PUSH1 = 0, O_PUSHN, O_POP1, O_POPN, O_POPW, O_POPTW, O_REMOVE, O_LEGACY_PUSH, O_LEGACY_POP, O_N };
-static const char *on[] = { "push", "pushN", "pop", "popN", "pop_wait", "pop_timedwait", "remove", "push(unit)", "pop(unit)" };
+enum { O_PUSH1 = 0, O_PUSHN, O_POP1, O_POPN, O_POPW, O_POPTW, O_REMOVE, O_LEGACY_PUSH, O_LEGACY_POP, O_PRINT, O_N };
+static const char *on[] = { "push", "pushN", "pop", "popN", "pop_wait", "pop_timedwait", "remove", "push(unit)", "pop(unit)", "print" };
 
 typedef struct client {
     int id, can_push, can_pop, can_remove;
@@ -31,7 +31,7 @@ static struct {
     int ncl;
     lin_op H[LIN_MAX_OPS];
     int nh;
-    long pushed, popped, empty_pops, waits_got, waits_empty, removes_ok, removes_refused;
+    long pushed, popped, empty_pops, waits_got, waits_empty, removes_ok, removes_refused, prints;
     int multi_consumer;
     int ran[MAXTOK];
 } S;
@@ -138,6 +138,24 @@ static int pop_end(int arg)
     return (S.kind == 2 && (arg & 2)) ? LIN_TAIL : LIN_HEAD;
 }
 
+/* ABT_pool_print_all_threads: a read-only walk over the pool */
+typedef struct {
+    int n, seen[MAXTOK], foreign;
+} print_rec;
+static void print_cb(void *arg, ABT_thread th)
+{
+    print_rec *pr = (print_rec *)arg;
+    int t = -1;
+    for (int i = 0; i < S.ntok; i++)
+        if (S.tok[i] == th)
+            t = i;
+    if (t < 0)
+        pr->foreign++;
+    else
+        pr->seen[t]++;
+    pr->n++;
+}
+
 static void do_op(client *c, int op, int arg)
 {
     ABT_pool_context pushctx = push_end(arg) == LIN_HEAD ? ABT_POOL_CONTEXT_OP_THREAD_CREATE : ABT_POOL_CONTEXT_OP_POOL_OTHER;
@@ -158,9 +176,29 @@ static void do_op(client *c, int op, int arg)
         else
             arg = found;
     }
+    if (op == O_PRINT && !c->can_pop)
+        op = -1;
     if (op < 0)
         return;
     switch (op) {
+        case O_PRINT: {
+            /* looking at the pool changes nothing (the operations that follow find it as it
+             * was); the walk shows units of the pool only, each once; when the caller is the only
+             * client, exactly the units that are inside */
+            print_rec PR;
+            memset(&PR, 0, sizeof PR);
+            int rc = ABT_pool_print_all_threads(S.pool, &PR, print_cb);
+            SIM_CHECK(rc == ABT_SUCCESS, "pool:print", "ABT_pool_print_all_threads returned %d", rc);
+            SIM_CHECK(PR.foreign == 0, "pool:print", "ABT_pool_print_all_threads showed %d handles that were never pushed to the pool", PR.foreign);
+            for (int t = 0; t < S.ntok; t++) {
+                SIM_CHECK(PR.seen[t] <= 1, "pool:print", "ABT_pool_print_all_threads showed unit %d %d times", t, PR.seen[t]);
+                if (S.ncl == 1)
+                    SIM_CHECK(PR.seen[t] == (S.owner[t] == -1), "pool:print", "ABT_pool_print_all_threads %s unit %d, which is %s the pool", PR.seen[t] ? "showed" : "did not show", t,
+                              S.owner[t] == -1 ? "in" : "not in");
+            }
+            S.prints++;
+            break;
+        }
         case O_PUSH1:
         case O_LEGACY_PUSH: {
             int t = c->held[--c->nheld];
@@ -419,9 +457,9 @@ static void run_pool(int wait_heavy)
             int r = (int)plan_n(100);
             int op;
             if (wait_heavy)
-                op = r < 35 ? O_PUSH1 : r < 45 ? O_PUSHN : r < 75 ? O_POPW : r < 90 ? O_POPTW : O_POP1;
+                op = r < 35 ? O_PUSH1 : r < 45 ? O_PUSHN : r < 75 ? O_POPW : r < 90 ? O_POPTW : r < 96 ? O_POP1 : O_PRINT;
             else
-                op = r < 25 ? O_PUSH1 : r < 35 ? O_PUSHN : r < 55 ? O_POP1 : r < 65 ? O_POPN : r < 73 ? O_POPW : r < 78 ? O_POPTW : r < 86 ? O_REMOVE : r < 93 ? O_LEGACY_PUSH : O_LEGACY_POP;
+                op = r < 25 ? O_PUSH1 : r < 35 ? O_PUSHN : r < 55 ? O_POP1 : r < 65 ? O_POPN : r < 73 ? O_POPW : r < 78 ? O_POPTW : r < 86 ? O_REMOVE : r < 92 ? O_LEGACY_PUSH : r < 97 ? O_LEGACY_POP : O_PRINT;
             c->ops[j] = op;
             c->args[j] = (int)plan_n(1 << 14);
             sim_note(" %s", on[op]);
@@ -492,6 +530,7 @@ static void run_pool(int wait_heavy)
     sim_count("pool.far_waits_that_got_a_unit", (uint64_t)S.far_waits_done);
     sim_count("pool.empty_blocking_pops_checked", (uint64_t)S.empty_wait_checks);
     sim_count("pool.removes_refused_unit_gone", (uint64_t)S.removes_refused);
+    sim_count("pool.print_walks", (uint64_t)S.prints);
     /* drain, then let every token run so that it can be freed */
     for (;;) {
         ABT_thread th = ABT_THREAD_NULL;
